@@ -74,6 +74,17 @@ func (s *sim) precond(a Action) error {
 		if !up {
 			return fmt.Errorf("not up")
 		}
+	case "start_iob":
+		if !up || s.boot.iobStarted {
+			return fmt.Errorf("not up or the broker's Do is running already")
+		}
+	case "squeeze_c":
+		if !up || !s.boot.tmplOn || a.Margin < 8 || a.Margin > 256 || a.N <= a.Margin || a.N > 512 {
+			return fmt.Errorf("not up, no template file configured or bad numbers")
+		}
+		if s.boot.act.OneShell && s.boot.ready > 0 {
+			return fmt.Errorf("listener is expected to be closed")
+		}
 	case "tmpl":
 		if a.Via != "" && a.Via != "link" {
 			return fmt.Errorf("unknown way of installing a template")
@@ -159,6 +170,9 @@ func (s *sim) precond(a Action) error {
 		if a.K != "open_io" && a.S == len(s.sess) && a.ID == "" {
 			return fmt.Errorf("a new session needs an ID")
 		}
+		if a.Long != 0 && (a.Long < 2 || a.Long > 1024 || a.K == "open_io" || a.S != len(s.sess) || strings.HasPrefix(a.ID, "$live")) {
+			return fmt.Errorf("only a new session's own ID can be made long")
+		}
 	case "run_script":
 		if !up || !s.script.ok || s.script.boot != s.boot.n {
 			return fmt.Errorf("no script from this boot")
@@ -236,6 +250,10 @@ func (s *sim) apply(a Action) {
 		s.doBoot(a)
 	case "stop":
 		s.doStop()
+	case "start_iob":
+		s.lateStartIOB(s.boot)
+	case "squeeze_c":
+		s.squeezeC(a)
 	case "sleep":
 		s.sleep(time.Duration(a.Ms) * time.Millisecond)
 	case "del_cache":
@@ -698,10 +716,26 @@ func (s *sim) open(a Action) {
 			if id == "" {
 				id = lid + "x"
 			}
+		case "~": // the same ID but for its first byte
+			id = otherFirstByte(lid)
 		default:
 			id = lid + suf
 		}
 		ss.id = id
+	}
+	if a.Long > 0 {
+		id = longID(id, a.Long)
+		ss.id = id
+		s.probes["long_ids"]++
+	}
+	if len(id) > 64 {
+		s.probes["requests_with_id_over_64_bytes"]++
+		if !ss.expectOK {
+			s.probes["refusable_attempts_with_id_over_64_bytes"]++
+		}
+	}
+	if len(id) > 256 {
+		s.probes["requests_with_id_over_256_bytes"]++
 	}
 	id = spell(id, a.N)
 	hold := a.Flood > 0 || a.Early
@@ -959,6 +993,17 @@ func (s *sim) checkOneShell(a Action) {
 		return
 	}
 	s.probes["one_shell_ready"]++
+	if !b.iobStarted {
+		// The broker's event loop has not run yet (main starts it concurrently
+		// with the server; here it is late): the server cannot know of the
+		// shell, so the listener is judged once the loop runs.  The shell
+		// itself must be left alone all the same.
+		s.probes["one_shell_ready_event_loop_not_yet_run"]++
+		if doRet && b.goneFull == 0 {
+			s.violate("C12", "shell-undisturbed", "server stopped while the one shell was still attached", "Server.Do returned %v while the shell is attached", doErr)
+		}
+		return
+	}
 	if !b.ln.Closed() {
 		s.violate("C12", "closed-after-shell", "listener still open after the shell became ready",
 			"-one-shell: the shell is ready but new TCP connections are still accepted")
@@ -991,9 +1036,21 @@ func (s *sim) checkOneShell(a Action) {
 		}
 		c.mu.Unlock()
 	}
-	if !doRet && !lingering && s.nowNanos()-b.goneAt > int64(12*time.Second) {
+	// (the twelve seconds count from the moment the shell had gone and the last
+	// client had left: a client that stays - say a second shell on a connection
+	// made before the listener closed - keeps the server up for as long as it
+	// likes)
+	since := b.goneAt
+	if lingering {
+		b.lastLinger = s.nowNanos()
+	}
+	if b.lastLinger > since {
+		since = b.lastLinger
+		s.probes["one_shell_clients_stayed_after_shell"]++
+	}
+	if !doRet && !lingering && s.nowNanos()-since > int64(12*time.Second) {
 		s.violate("C12", "exits-after-shell", "server does not finish after the one shell ended",
-			"-one-shell: %d ms after the shell had gone Server.Do has not returned", (s.nowNanos()-b.goneAt)/1e6)
+			"-one-shell: %d ms after the shell had gone and the last client had left Server.Do has not returned", (s.nowNanos()-since)/1e6)
 		return
 	}
 	if doRet && doErr != hsrv.ErrOneShellClosed {
